@@ -10,10 +10,11 @@ from container_common import enc_operand, enc_label
 ID = 'C09'
 LEAN_MODULE = 'Proofs.C09'
 THEOREMS = ['Fsic.C09.' + n for n in [
-    'inv_init', 'inv_step_false_at_witness', 'inv_step_partial', 'inv_history_partial', 'dtype_step', 'dtype_history',
-    'index_step_prefix', 'failed_assign_unchanged', 'conversion_failure_may_write', 'values_is_stack', 'size_eq',
+    'step_ext', 'inv_init', 'inv_step_false_at_witness', 'inv_step_partial', 'inv_history_partial', 'inv_step',
+    'inv_history', 'dtype_step', 'dtype_history', 'index_step_prefix', 'failed_assign_unchanged',
+    'failed_add_variable_unchanged', 'conversion_failure_may_write', 'values_is_stack', 'size_eq',
     'size_counts_values', 'strict_no_new_attribute', 'strict_existing_names_work', 'strict_add_variable_works',
-    'strict_reports_closest']]
+    'strict_reports_closest', 'strict_values_setter_works', 'strict_values_setter_blocked_at_witness']]
 RULE = ('histories of public operations {add_variable, add_attribute, attribute set, name-key set, positional set, '
         '(name,label) set, (name,label-slice) set, replace_values, values setter (array/scalar/list), toggle strict, '
         'malformed key} with operands {scalar, list, tuple, range, nested list (1xn, nx1, nxm, ragged, empty rows), '
@@ -28,7 +29,9 @@ TRUSTED = ['NumPy element conversion / broadcasting rules are re-implemented in 
            'operand alphabet only (floats that are multiples of 1/4 below 1e16, plain decimal strings, |int| < 2^53, '
            'no NaN/inf into int series) and validated against NumPy on every generated operand',
            "difflib.get_close_matches defines 'closest variable' (its result is an input of the model)",
-           'the initial store of BaseModel/BaseLinker instances is read from the freshly constructed object']
+           'the initial store of BaseModel/BaseLinker instances is read from the freshly constructed object',
+           'three behaviour switches of the model (Cfg.current) are probed on the imported fsic by '
+           'harness/reflect_container.py on every run; the theorems hold for every configuration']
 ASSUMPTIONS = ['operands stay inside the alphabet above', 'variable and attribute names come from a pool that avoids '
                "the container's own attribute names ('span', 'index', 'names', 'dtype', ...)",
                "'cannot fit' is read weakly: an operand whose element count is neither 1 nor len(span), or a ragged "
@@ -38,7 +41,7 @@ ASSUMPTIONS = ['operands stay inside the alphabet above', 'variable and attribut
                'element count of values" is applied to the linker\'s own part']
 
 META = {
-    "text": "Theorems over the container model M6 for every store, operation and operand: every operation other than a whole-series assignment of a rectangular nested list whose outer length equals the span keeps every series one-dimensional with one element per period (inv_step_partial, hence every history: inv_history_partial, induction on the operation list); the dtype tag of an existing series never changes under any operation or history, without exception (dtype_step, dtype_history); failed single-variable assignments other than element-conversion failures leave the store unchanged; values is the names-by-periods stack in declaration order and size its element count; under strict no assignment extends the attribute list, existing names and add_variable behave as without strict, and a unique closest name is reported. The full invariant is FALSE on the code as it stands: obj.A = [[1,2],[3,4],[5,6]] on a 3-period span makes A two-dimensional (negation proved at that witness, reproduced on the real code, listed as an open known finding). The model is tied to VectorContainer/BaseModel/BaseLinker by comparing outcome class, index, attributes, size, nbytes, values shape/dtype and every element of every series after every operation of exhaustive short and random long histories.",
+    "text": "Theorems over the container model M6 for every store, operation, operand and every configuration of the three reflected behaviour switches (Cfg: whole-shape test in __setattr__, names exempt from the strict guard, add_variable checking the attribute list — probed on the code on every run, harness/reflect_container.py): every operation other than a whole-series assignment of a rectangular nested list whose outer length equals the span keeps every series one-dimensional with one element per period (inv_step_partial, hence every history: inv_history_partial, induction on the operation list), and with the whole-shape test every operation does, with no guard (inv_step, inv_history — in force exactly when the reflected switch says the code has that test); the dtype tag of an existing series never changes under any operation or history, without exception (dtype_step, dtype_history); failed single-variable assignments other than element-conversion failures leave the store unchanged; values is the names-by-periods stack in declaration order and size its element count; under strict no assignment extends the attribute list, existing names and add_variable behave as without strict, and a unique closest name is reported. The full invariant is FALSE on the code as it stands: obj.A = [[1,2],[3,4],[5,6]] on a 3-period span makes A two-dimensional (negation proved at that witness, reproduced on the real code, listed as an open known finding). The model is tied to VectorContainer/BaseModel/BaseLinker by comparing outcome class, index, attributes, size, nbytes, values shape/dtype and every element of every series after every operation of exhaustive short and random long histories.",
     "design_ref": "DESIGN.md §5 M6, §6 C09, §7 row 6",
     "note": "Trusted: Lean kernel; axioms propext/Classical.choice/Quot.sound; the correspondence harness; NumPy's conversion/broadcast behaviour is modelled only for the operand alphabet and validated on generated operands, difflib's notion of closest name and the initial state of model/linker instances are inputs. The invariant is claimed only outside the known finding (nested list with outer length = span length assigned to a whole series).",
     "technique": "Lean 4 proof (invariant + induction over histories) + differential correspondence check after every operation"
